@@ -107,6 +107,20 @@ PROPS = {
         real_vs_stub=L_REAL,
         assumptions=SIM_ASSUME + ["backend Save/Remove are atomic at a crash"],
     ),
+    "C32": dict(
+        pkg="cmd/restic", test="TestVerifC32", level="fault_enumeration", quick_s=60, thorough_s=900,
+        text="a source repository with 1-4 overlapping or unrelated snapshots and a destination with its own chunker polynomial and format version, "
+             "optionally holding an earlier copy of a subset; `copy` is crashed after its k-th applied mutation of the destination (sampled k and "
+             "complete sweeps), slowed down by stalls (so that batches split by the one-minute rule) or given transient errors; after every stop "
+             "every snapshot file in the destination is complete per the independent decoder and restores, through the real read path, to the source "
+             "model of its original; after completion every source snapshot has a copy with the same tree ID and a second copy saves no pack or snapshot",
+        note="crash points of the destination writer are swept completely in sweep runs; source repository is only read",
+        design_ref="3 / C32",
+        rule="one run = configuration x source history x destination version x earlier partial copy x fault; distinct = distinct event-log hash among runs "
+             "with a real scheduling choice or fired fault",
+        real_vs_stub=L_REAL,
+        assumptions=SIM_ASSUME + ["backend Save/Remove are atomic at a crash"],
+    ),
     "C15": dict(
         pkg="cmd/restic", test="TestVerifC15", level="exploration", quick_s=60, thorough_s=900,
         text="generated histories of 2-8 operations over backup, forget, prune, forget --prune, tag, rewrite --exclude, key add/passwd and repair "
